@@ -214,6 +214,20 @@ def run(case):
                     try:
                         blm = mt.best_last_matches(k=2, nb_obs=2)
                         st["best_last"] = {str(o): sorted((x.logprob for x in ms), reverse=True) for o, ms in blm.items()}
+                        # was the selection a choice among EXACTLY equally probable candidates?  (the k-th selected one has the
+                        # same log-probability as a live candidate of the same column that was not selected)
+                        tie = False
+                        for o, ms in blm.items():
+                            col = mt.lattice.get(o - 1)
+                            if col is None or not ms:
+                                continue
+                            sel = {id(x) for x in ms}
+                            worst = min(x.logprob for x in ms)
+                            for layer in col.o:
+                                for e in layer.values():
+                                    if not e.stop and id(e) not in sel and e.logprob == worst:
+                                        tie = True
+                        st["best_last_tie"] = tie
                         # digest of the lattice the selection was made from (labels are the same in a permuted map)
                         st["lattice_digest"] = jhash(sorted((repr(e.key), e.logprob, bool(e.stop)) for col in mt.lattice.values()
                                                             for layer in col.o for e in layer.values()))
@@ -316,6 +330,13 @@ def check_case(ctx, case):
             ctx.violation(f"C10:permutation:best_last_matches-differ:{fam}", {"base": case, "permuted": pc},
                           f"the k best last matches (log-probabilities per observation) selected from IDENTICAL lattices depend on the listing order: {bl_diff[0]} vs {bl_diff[1]}")
             continue
+        if any(s_.get("best_last_tie") for s_ in c.get("steps", []) + c2.get("steps", [])) and \
+                any(x.get("res") == "cwd" for x in c.get("steps", [])):
+            # continue_with_distance() started from "the k best last matches" where the k-th place was an exact tie: which of
+            # the equally probable candidates is continued from is a choice among exactly equally probable alternatives
+            if c["empty"] != c2["empty"] or c["idx"] != c2["idx"] or (not c["empty"] and not oracles.close(c["best"], c2["best"])):
+                ctx.count("permutation_differs_after_tied_best_last_selection")
+                continue
         if c["empty"] != c2["empty"] or c["idx"] != c2["idx"]:
             report("index-differs", f"idx {c['idx']} vs {c2['idx']}")
         elif not c["empty"]:
